@@ -39,6 +39,7 @@ pub const SESSIONS: &[(&str, &str)] = &[
     ("toplevel_loop_control", "acc := mut [int] []\ni := mut 0\nloop { i += 1; if *i > 6 { break }; if *i % 2 == 0 { continue }; acc += [*i] }\n*acc\nfor e in [1, 2, 3, 4]~ { if e == 3 { break }; acc += [e * 10] }\n*acc\n(*i, std.len(*acc))"),
     ("iterator_across_inputs", "src := [1, 2, 3, 4, 5, 6]~\nev := src ? (x: int) -> bool { return x % 2 == 0 }\nev()\nsrc()\nev()\nrest := ev $]\nrest\n(src(), ev())"),
     ("import_module", "m := import \"modp\"\nm.a\nm.f(2)\nn := import \"modp\"\n(m.a, n.a, n.s)\na := 100\nm.f(1)\nk := import \"modq\"\nk.inner.f(a)"),
+    ("param_shapes", "c := mut 5\nbump := (x: mut int, k: int) -> int { return x += k }\nbump(c, 2)\nsum := (xs: [int], s: struct{a: int, b: string}) -> int { return std.len(xs) + s.a }\nsum([1, 2], struct{a := 1, b := \"x\"})\neither := (v: int|string|[int]) -> int { if y: int = v { return y } return 0 }\neither(\"q\")\napply := (h: (int) -> int, v: int) -> int { return h(v) }\napply((q: int) -> int { return q * 3 }, 4)\nnothing := (a: int) { }\nnothing(1)\npair := (t: (int, string), u: ()) -> string { return t.1 }\npair((1, \"z\"), ())"),
     ("own_name_param", "f := (f: int, g: int) -> int { return f + g }\nf(1, 2)\ng := (x: int) -> int { g := x + 1; return g }\ng(1)\ng(2)"),
 ];
 
@@ -215,9 +216,41 @@ fn sample_arg(t: &Type, variant: usize) -> Option<(Variable, String)> {
         let v = Variable::Tuple(parts.iter().map(|p| p.0.clone()).collect());
         return Some((v, format!("({})", parts.iter().map(|p| p.1.clone()).collect::<Vec<_>>().join(", "))));
     }
-    let v = sample_args(t, variant)?;
-    let l = lit_of(&v)?;
-    Some((v, l))
+    if let Some(v) = sample_args(t, variant) {
+        if let Some(l) = lit_of(&v) {
+            return Some((v, l));
+        }
+    }
+    // everything else (cells, structs, arrays of those, unions of those): a literal expression of
+    // that type, evaluated once for the host route
+    let text = literal_of_type(t, variant)?;
+    let scratch = Interpreter::with_stdlib();
+    let v = Code::parse(&scratch, &text).ok()?.exec().ok()?;
+    Some((v, text))
+}
+
+fn literal_of_type(t: &Type, variant: usize) -> Option<String> {
+    Some(match t {
+        Type::Mut(e) => format!("mut {} {}", ctype(e), literal_of_type(e, variant)?),
+        Type::Struct(st) => {
+            let mut fs: Vec<String> = st.0.iter().map(|(k, v)| literal_of_type(v, variant).map(|l| format!("{k} := {l}"))).collect::<Option<_>>()?;
+            fs.sort();
+            format!("struct{{{}}}", fs.join(", "))
+        }
+        Type::Array(e) => match literal_of_type(e, variant) {
+            Some(l) if variant % 3 != 2 => format!("[{l}]"),
+            _ => "[]".to_string(),
+        },
+        Type::Tuple(ts) => format!("({})", ts.iter().map(|x| literal_of_type(x, variant)).collect::<Option<Vec<_>>>()?.join(", ")),
+        Type::Multi(m) => {
+            let mut ms: Vec<&Type> = m.iter().collect();
+            ms.sort_by_key(|t| ctype(t));
+            return literal_of_type(ms[variant % ms.len()], variant);
+        }
+        Type::Function(_) => sample_arg(t, variant)?.1,
+        Type::Never => return None,
+        other => lit_of(&sample_args(other, variant)?)?,
+    })
 }
 
 fn sample_args(t: &Type, variant: usize) -> Option<Variable> {
@@ -534,6 +567,17 @@ pub fn run_scenario(sc: &Scenario) -> RunReport {
                 let mut long = good.clone();
                 long.push((Variable::Int(5), "5".to_string()));
                 vectors.push(long);
+                if let Some(pos) = ft.params.iter().position(|p| matches!(p, Type::Array(_))) {
+                    let mut empty = good.clone();
+                    empty[pos] = (Variable::from(Vec::<Variable>::new()), "[]".to_string());
+                    vectors.push(empty);
+                }
+                if ft.params.len() >= 2 {
+                    // arguments in the wrong order
+                    let mut rev = good.clone();
+                    rev.reverse();
+                    vectors.push(rev);
+                }
                 for pairs in vectors {
                     let args: Vec<Variable> = pairs.iter().map(|p| p.0.clone()).collect();
                     let text = format!("{n}({})", pairs.iter().map(|p| p.1.clone()).collect::<Vec<_>>().join(", "));
